@@ -18,10 +18,14 @@ static void test_entry(entry_t *e, uint64_t c)
         int pidx[10], np = 0;
         for (int i = 0; i < e->nargs; i++) if (e->a[i].kind != 'S') pidx[np++] = i;
         /* (a) every non-empty subset of pointer arguments NULL, the others aimed into an inaccessible page */
-        for (unsigned s = 1; s < (1u << np); s++) {
+        /* hash submits: the data pointer is required for ENTIRE and for UPDATE (sha-style wrappers) resp. for len != 0 (sm3): both flag values */
+        int is_hsub = e->nargs == 6 && e->a[3].kind == 'B';
+        for (unsigned s0 = 1; s0 < (1u << np) * (is_hsub ? 2u : 1u); s0++) {
+                unsigned s = s0 & ((1u << np) - 1), alt = s0 >> np;
+                if (!s) continue;
                 uint64_t v[10] = { 0 }; unsigned accept[10]; int nacc = 0;
                 for (int i = 0; i < e->nargs; i++) if (e->a[i].kind == 'S') v[i] = e->a[i].valid;
-                if (e->nargs == 6 && e->a[3].kind == 'B') v[5] = ISAL_HASH_ENTIRE;
+                if (is_hsub) v[5] = alt ? ISAL_HASH_UPDATE : ISAL_HASH_ENTIRE;
                 for (int k = 0; k < np; k++) {
                         int i = pidx[k];
                         if (s >> k & 1) { v[i] = 0; accept[nacc++] = (unsigned) e->a[i].code; }
@@ -37,7 +41,7 @@ static void test_entry(entry_t *e, uint64_t c)
                   clog_title("invalid-argument calls: NULL subsets (the other pointers aim into a PROT_NONE region, so any dereference faults), then single out-of-domain scalars with byte-image comparison of every buffer");
                   clog_event("%s with NULL mask %x over its %d pointer arguments: %s, returned %d", e->name, s, np, faulted ? "FAULTED" : "no dereference", rc);
                   clog_on = 0; } }
-                feat(mix64(0x9a, mix64((uint64_t) (e - entries), s)));
+                feat(mix64(0x9a, mix64((uint64_t) (e - entries), s0)));
                 if (faulted) { snprintf(key, sizeof key, "param-deref %s", e->name); out_viol("C16", key, rbuf, "%s with NULL mask %x dereferenced an argument (fault at %p) before refusing the call", e->name, s, fault_last.addr); continue; }
                 if (unapproved(e) && !faulted && rc == ISAL_CRYPTO_ERR_FIPS_INVALID_ALGO) continue;
                 int ok = 0; for (int k = 0; k < nacc; k++) if ((unsigned) rc == accept[k]) ok = 1;
@@ -222,6 +226,9 @@ static void legacy_case(uint64_t c)
                 isal_rolling_hash2_run(s1, in + 48, l > 48 ? l - 48 : 0, mask, trig, &f1, &mt); int m2 = rolling_hash2_run(s2, in + 48, l > 48 ? l - 48 : 0, mask, trig, &f2);
                 DIFF("rolling offset", &f1, &f2, 4); DIFF("rolling match", &mt, &m2, 4); DIFF("rolling state", &s1->hash, &s2->hash, 8);
                 uint32_t mk = 0; isal_rolling_hashx_mask_gen(l + 2, w & 31, &mk); uint32_t mk2 = rolling_hashx_mask_gen((long) l + 2, (int) (w & 31)); DIFF("mask_gen", &mk, &mk2, 4);
+                /* the whole uint32_t domain of mean: around every power of two up to 2^31, and the top of the range */
+                uint32_t bm = rng_chance(&r, 20) ? 0xffffffffu - rng_below(&r, 4) : (1u << rng_below(&r, 32)) + rng_below(&r, 3) - 1;
+                mk = 0; isal_rolling_hashx_mask_gen(bm, w & 31, &mk); mk2 = rolling_hashx_mask_gen((long) bm, (int) (w & 31)); DIFF("mask_gen (large mean)", &mk, &mk2, 4);
                 free(s1); free(s2);
         }
         feat(mix64(0x1e9, c));
